@@ -146,6 +146,9 @@ def one_case(args):
         # some outputs go to a sibling directory whose name extends the working directory's name
         os.makedirs(sibling)
         beh['sibling'] = sorted(beh['files'])[:rng.randint(1, len(beh['files']))]
+        if rng.random() < 0.5:
+            # one of them is also written, under the same name, in the main output directory
+            beh['both'] = [rng.choice(beh['sibling'])]
     command = G.gen_command(rng)
     G.write_command(d, beh)
     script = rng.choice(['test_cmd.py', 'test_cmd.py', 'test_my-cmd.py', 'cmd2', 'test_9x.py'])
@@ -182,7 +185,7 @@ def one_case(args):
             f.write('not produced by the command\n')
     res = {'i': i, 'dir': d, 'behaviour': {k: (v if k != 'files' else {n: [t, len(b)] for n, (t, b) in v.items()}) for k, v in beh.items()},
            'script': script, 'flags': flags, 'refs': refs, 'problems': [], 'regen': regen, 'command': command,
-           'sibling': beh.get('sibling', [])}
+           'sibling': beh.get('sibling', []), 'both': beh.get('both', [])}
     if regen:
         rc0, out0 = G.run_gentest(d, script, flags, refs, command)
         if rc0 != 0:
@@ -233,7 +236,7 @@ def one_case(args):
     res['results'] = results
     if rc2 != 0 or any(v != 'ok' for v in results.values()) or not results:
         res['problems'].append('the generated test does not pass straight afterwards (exit %s): %s' % (rc2, out2[-700:]))
-    want = 2 + int(check_stdout) + int(check_stderr) + len(beh['files'])
+    want = 2 + int(check_stdout) + int(check_stderr) + len(beh['files']) + len(beh.get('both', ()))
     if len(results) != want:
         res['problems'].append('%d tests ran, expected %d (exit code, no exception, streams, one per output file)' % (len(results), want))
     res['check_stdout'], res['check_stderr'] = check_stdout, check_stderr
@@ -250,7 +253,7 @@ def run(ctx):
     results = G.pmap(one_case, [(i, s, base) for i, s in enumerate(seeds)])
     payloads, keep = [], []
     for r in results:
-        case = {k: r[k] for k in ('behaviour', 'script', 'flags', 'refs', 'regen', 'command', 'sibling')}
+        case = {k: r[k] for k in ('behaviour', 'script', 'flags', 'refs', 'regen', 'command', 'sibling', 'both')}
         ctx.count(repr(case), True)
         ctx.bump('flags.%s' % ' '.join(r['flags']))
         ctx.bump('nfiles.%d' % len(r['behaviour']['files']))
